@@ -4,4 +4,4 @@ From PV Require Import Lib.Base Lib.Utf8 Syntax.RGrammar Syntax.Code Syntax.Ast 
 Require Import ExtrOcamlBasic.
 Extraction Language OCaml.
 Set Extraction KeepSingleton.
-Extraction "model.ml" prepare lr_cycle lr_rules basic_latin table_agrees_b slow_decide table_decide parse_class unquote embed kept join_lines has raw_string_value Pool.step Pool.init Pool.view Pool.sstep exit_code rd pos_of parse env_of_blocks decode perr_string init_state faithful repaired rparse lrparse lr_shape blocks_of_log relevant_terms far_pos far_expected optimize_choice lower_alt.
+Extraction "model.ml" prepare lr_cycle lr_rules basic_latin table_agrees_b slow_decide table_decide parse_class unquote embed kept join_lines has raw_string_value Pool.step Pool.init Pool.view Pool.sstep exit_code rd pos_of parse env_of_blocks decode perr_string init_state faithful repaired rparse lrparse lr_shape blocks_of_log relevant_terms far_pos far_expected optimize_choice lower_alt optimize_seq cleanup.
